@@ -375,7 +375,16 @@ def main(tier, seed, replay=None):
             argpreds = [EX.n, EX.m, EX.n][:k]
             limit = rng.choice([5, 20, 60])
             varz = ["?a", "?b", "?c"][:k]
-            where = " ; ".join("%s %s" % (p.n3(), v) for p, v in zip(argpreds, varz))
+            extra_where = ""
+            if rng.random() < 0.5:
+                # the calling query happens to use variables named like the function's parameters, for OTHER values: the call's
+                # arguments are what the function gets, not the caller's variables of the same name
+                pn = ["?" + p_["name"] for p_ in call_order(f)]
+                if k >= 2:
+                    varz = pn[1:] + pn[:1]
+                else:
+                    extra_where = " . $this %s %s" % (EX.m.n3(), pn[0])
+            where = " ; ".join("%s %s" % (p.n3(), v) for p, v in zip(argpreds, varz)) + extra_where
             q = "SELECT $this ?value WHERE { $this %s . BIND (%s(%s) AS ?value) FILTER (?value > %d) }" % (where, f["node"].n3(), ", ".join(varz), limit)
             ttl = PFX + fn_ttl + "ex:S a sh:NodeShape ; sh:targetClass ex:P ; sh:sparql [ sh:prefixes ex:prefixes ; sh:select \"%s\" ] ;\n" % q
             ttl += " sh:rule [ a sh:TripleRule ; sh:subject sh:this ; sh:predicate ex:computed ; sh:object [ %s ( %s ) ] ] .\n" % (f["node"].n3(), " ".join("[ sh:path %s ]" % p.n3() for p in argpreds))
